@@ -88,6 +88,20 @@ pub fn symlink(p: &str, target: &Target, scratch: &str) -> String {
     })())
 }
 
+/// `chmod P OCT` / `mode P`: permission bits of a file (implementation-only programs: the model has no modes)
+pub fn chmod(p: &str, mode: u32) -> String {
+    use std::os::unix::fs::PermissionsExt;
+    unit(fs::set_permissions(p, fs::Permissions::from_mode(mode)))
+}
+
+pub fn mode(p: &str) -> String {
+    use std::os::unix::fs::PermissionsExt;
+    match fs::metadata(p) {
+        Ok(m) => format!("ok {:o}", m.permissions().mode() & 0o7777),
+        Err(e) => io_err(&e),
+    }
+}
+
 pub fn cat(p: &str) -> String {
     match fs::read(p) {
         Ok(d) => format!("ok {}", hex_tok(&d)),
